@@ -454,6 +454,15 @@ func c08Oracle(b []byte, mv *midiView, sv *smfView) (bad []string) {
 	if mv.nilProblem != "" {
 		add("%s", mv.nilProblem)
 	}
+	if len(b) > 0 && b[0] == 0xFF {
+		var np string
+		if p := try(func() { np = smfNilSubsets(smf.Message(b)) }); p != "" {
+			np = "a meta accessor called with nil out parameters panics: " + p
+		}
+		if np != "" {
+			add("%s", np)
+		}
+	}
 	if mv.ch != mv.cat[3] {
 		add("GetChannel = %v, Is(ChannelMsg) = %v", mv.ch, mv.cat[3])
 	}
